@@ -11,11 +11,18 @@ RULE = ('generated classes using MetaThreadSafeAttributes (1-4 attributes, optio
         'or via miros.ThreadSafeAttributes), 2-5 instances created at random points, histories of plain assignment, augmented assignment '
         '(+=, -=, *=) and reads; the statements are real source lines of a generated module (the descriptor inspects its caller\'s source). '
         'After every statement every attribute of every instance is read and compared with a per-instance dictionary model (fresh '
-        'instance reads 0). distinct_nontrivial = distinct (classes, attributes, instances, history length, ops used) tuples')
+        'instance reads 0). Every fifth case is concurrent: 2-4 instances hold values from disjoint ranges (plus one never-assigned '
+        'instance), 2-4 real threads read any instance and assign / += only their own one, under detsched with a yield point at every '
+        'bytecode boundary of miros/thread_safe_attributes.py and of the statements; an owner must read back exactly what its own history '
+        'gives, any other reader a value that instance held at some time (never another instance\'s), the fresh instance 0, and the final '
+        'values must be those of the owners\' histories. distinct_nontrivial = distinct (classes, attributes, instances, history length, '
+        'ops used) tuples, and for concurrent cases distinct context-switch sequences')
 CASES = {'quick': 1500, 'thorough': 100000}
 BUDGET = {'quick': 40, 'thorough': 300}
-REQUIRE = {'statements': 10000, 'reads_compared': 50000, 'fresh_instance_reads': 2000, 'subclass_cases': 100}
-ASSUME = ['single thread (concurrency is C27)', 'one statement per source line']
+REQUIRE = {'statements': 10000, 'reads_compared': 50000, 'fresh_instance_reads': 2000, 'subclass_cases': 100,
+           'concurrent_runs': 150, 'concurrent_reads_of_foreign_instance': 300, 'switch_inside_descriptor': 100}
+ASSUME = ['lost updates / errors / deadlocks on ONE shared instance are C27; the concurrent cases here let only the owner thread write an instance', 'one statement per source line']
+ANNOUNCE_CASES = True
 
 TMP = None
 SEQ = [0]
@@ -32,7 +39,98 @@ def teardown_worker(ctx):
   shutil.rmtree(TMP, ignore_errors=True)
 
 
+def concurrent_case(ctx, n):
+  import miros.thread_safe_attributes as TSA
+  from vt import detsched as ds, wl_c27
+  rng = ctx.rng('conc', n)
+  ninst = rng.randint(2, 4)
+  nthreads = rng.randint(2, 4)
+  fresh = ninst                      # index of the never-assigned instance
+  base = [1000 * (i + 1) for i in range(ninst)]
+  plans, legal, own_model = [], {i: [base[i]] for i in range(ninst)}, {}
+  legal[fresh] = [0]
+  for t in range(nthreads):
+    plan, cur = [], base[t] if t < ninst else None
+    for _ in range(rng.randint(2, 5)):
+      r = rng.random()
+      if t < ninst and r < 0.45:
+        if rng.random() < 0.5:
+          cur = base[t] + rng.randint(1, 400)
+          plan.append(('=', t, cur))
+        else:
+          c = rng.randint(1, 9)
+          cur += c
+          plan.append(('+=', t, c))
+        legal[t].append(cur)
+        plan.append(('read', t, ('own', cur)))
+      else:
+        plan.append(('read', rng.randrange(ninst + 1), None))
+    plans.append(plan)
+    if t < ninst:
+      own_model[t] = cur
+  pol = dict(policy='random', p_switch=rng.choice([0.05, 0.15, 0.4])) if rng.random() < 0.6 else dict(policy='pct', pct_depth=rng.choice([2, 3, 4]), pct_len=500)
+  s = ds.Sched(seed=rng.randrange(1 << 30), max_steps=300000, **pol)
+  ds.install(s, op_mods=[TSA, wl_c27])
+  wit = {'concurrent': True, 'instances': ninst, 'initial_values': base, 'plans': plans, 'policy': pol}
+  try:
+    class K(metaclass=TSA.MetaThreadSafeAttributes):
+      _attributes = ['a', 'b']
+    objs = [K() for _ in range(ninst + 1)]
+    for i in range(ninst):
+      wl_c27.set_i(objs, i, base[i])
+    outs = [[] for _ in plans]
+    try:
+      ths = [ds.SThread(target=wl_c27.worker_multi, args=(objs, pl, outs[i])) for i, pl in enumerate(plans)]
+      for t in ths:
+        t.start()
+      for t in ths:
+        t.join()
+      s.quiesce()
+      final = []
+      p = ds.SThread(target=lambda: final.extend(o.a for o in objs))
+      p.start()
+      p.join()
+    except ds.Verdict:
+      ctx.count('other_property_disagreements')      # deadlock / budget while using the attribute: C27's business
+      return
+    if any(t.exc is not None for t in s.threads):
+      ctx.count('other_property_disagreements')
+      return
+    ctx.count('concurrent_runs')
+    ctx.distinct(('conc',) + s.signature())
+    if any(isinstance(loc, tuple) and loc[0] in ('__get__', '__set__', '_value_of') for (_, _, loc) in s.trail):
+      ctx.count('switch_inside_descriptor')
+    wit['trail'] = s.trail[-40:]
+    for t, (plan, out) in enumerate(zip(plans, outs)):
+      reads = [x for x in plan if x[0] == 'read']
+      for (op, i, tag), (j, got) in zip(reads, out):
+        ctx.count('reads_compared')
+        if tag is not None:
+          if got != tag[1]:
+            ctx.violation('C29/value-leaked-between-instances', 'thread %d, the only writer of instance %d, read %r from it right after its own history made it %r' % (t, i, got, tag[1]), wit)
+            return
+        else:
+          if i != t:
+            ctx.count('concurrent_reads_of_foreign_instance')
+          if got not in legal[i]:
+            what = 'fresh-instance-does-not-read-0' if i == fresh else 'value-leaked-between-instances'
+            ctx.violation('C29/' + what, 'thread %d read %r from instance %d, which only ever held %r%s' % (t, got, i, legal[i], ' (never assigned)' if i == fresh else ''), wit)
+            return
+    exp_final = [own_model.get(i, base[i]) for i in range(ninst)] + [0]
+    if final != exp_final:
+      ctx.violation('C29/value-leaked-between-instances', 'after all threads finished the instances read %r, their own histories give %r' % (final, exp_final), wit)
+      return
+    if n < 10:
+      ctx.sample({'concurrent_plans': plans, 'reads': outs, 'switches': s.switches})
+  finally:
+    z = ds.uninstall()
+    if z:
+      ctx.count('zombie_threads', z)
+
+
 def run_case(ctx, n):
+  if n % 5 == 4:
+    return concurrent_case(ctx, n)
   rng = ctx.rng('case', n)
   nattr = rng.randint(1, 4)
   attrs = ['a%d' % i for i in range(nattr)]
